@@ -89,15 +89,18 @@ def streams(tier, rng):
         Stream("run-full-product", "run", full, nontrivial=nontrivial, hist=S.hist(full)),
         Stream("run-counter-dense", "run", dense, nontrivial=nontrivial, hist=S.hist(dense)),
         Stream("panic-injection", "panic", pan, nontrivial=nontrivial, hist=S.hist(pan)),
+        # optimised build: the ZST fast path, forget/zeroed and black_box are what an optimiser may touch
+        Stream("run-full-product-release", "run", full if tier != "quick" else full[::3], nontrivial=nontrivial, release=True),
+        Stream("panic-injection-release", "panic", pan if tier != "quick" else pan[::2], nontrivial=nontrivial, release=True),
     ]
 
 
 def shrink(item, rerun):
     """Greedy: smaller sample size / count / threads, no counters, while the spec still fails."""
-    case, mode = item["case"], item["mode"]
+    case, mode, rel = item["case"], item["mode"], item.get("release", False)
 
     def fails(c):
-        impl, model, sb = rerun(mode, c, crate=CRATE, drv=DRV)
+        impl, model, sb = rerun(mode, c, crate=CRATE, release=rel, drv=DRV)
         return (not sb.startswith("true")), impl, model, sb
 
     def setf(c, k, v):
